@@ -163,4 +163,9 @@ theorem compile_correct_upto (ti : TreeInfo) (t : GoNode) (TPx : TP) (env : VM.E
     · intro st hst'; rw [hatt] at hst'; cases hst'; exact he2.tp
     · intro st hst'; rw [hatt] at hst'; cases hst'; exact he2.cap
 
+theorem inFrag_mono {k k' : Nat} (hk : k ≤ k') {TPx : TP} {ti : TreeInfo} {t : GoNode} (h : InFrag k TPx ti t = true) :
+    InFrag k' TPx ti t = true := by
+  simp only [InFrag, Bool.and_eq_true, decide_eq_true_eq, Bool.not_eq_true', beq_iff_eq] at h ⊢
+  exact ⟨⟨⟨h.1.1.1, by omega⟩, h.1.2⟩, h.2⟩
+
 end RegexVerif.Compile
